@@ -619,13 +619,16 @@ func renderNode(w io.Writer, node *treeNode, prefix string, isLast bool, isRoot 
 
 // abbreviate truncates a string to maxLen, adding "…" if truncated.
 func abbreviate(s string, maxLen int) string {
-	if len(s) <= maxLen {
+	// Count and cut by runes: slicing bytes would split a multi-byte character and print
+	// invalid UTF-8.
+	runes := []rune(s)
+	if len(runes) <= maxLen {
 		return s
 	}
 	if maxLen <= 1 {
 		return "…"
 	}
-	return s[:maxLen-1] + "…"
+	return string(runes[:maxLen-1]) + "…"
 }
 
 // stateIcon returns the appropriate icon for a task's state.
